@@ -120,8 +120,9 @@ fn kinds_meta(m: &Model, out: &mut Out) {
 fn cfg_from(args: &Args) -> GenCfg {
     let mut cfg = GenCfg::default();
     if let Some(k) = args.kv.get("kinds") {
+        // a kind may be repeated to give it more weight
         let all = GenCfg::default().kinds;
-        cfg.kinds = all.into_iter().filter(|x| k.split(',').any(|y| y == *x)).collect();
+        cfg.kinds = k.split(',').filter_map(|y| all.iter().copied().find(|x| *x == y)).collect();
     }
     if let Some(v) = args.kv.get("maxvars") {
         cfg.max_vars = v.parse().unwrap();
@@ -137,6 +138,9 @@ fn cfg_from(args: &Args) -> GenCfg {
     }
     if let Some(v) = args.kv.get("plant") {
         cfg.plant_pct = v.parse().unwrap();
+    }
+    if let Some(v) = args.kv.get("sympct") {
+        cfg.sym_pct = v.parse().unwrap();
     }
     cfg
 }
